@@ -1676,13 +1676,15 @@ require_internal (GIRepository  *repository,
       g_typelib_free (typelib);
       goto out;
     }
-  if (version != NULL && strcmp (typelib_version, version) != 0)
+  /* tmp_version is the requested version, or the one in the name of the
+   * file that was elected when any version will do */
+  if (tmp_version != NULL && strcmp (typelib_version, tmp_version) != 0)
     {
       g_set_error (error, G_IREPOSITORY_ERROR,
 		   G_IREPOSITORY_ERROR_NAMESPACE_MISMATCH,
 		   "Typelib file %s for namespace '%s' contains "
 		   "version '%s' which doesn't match the expected version '%s'",
-		   path, namespace, typelib_version, version);
+		   path, namespace, typelib_version, tmp_version);
       g_typelib_free (typelib);
       goto out;
     }
